@@ -1,4 +1,5 @@
 import OH.Props.C07
+import OH.Props.TablesC07
 #print axioms OH.Props.C07.C07_normalize_preserves
 #print axioms OH.Props.C07.C07_normalize_preserves_schedule
 #print axioms OH.Props.C07.C07_selector_is_filter
@@ -7,3 +8,4 @@ import OH.Props.C07
 #print axioms OH.Props.C07.C07_foldback
 #print axioms OH.Props.C07.C07_tail_cannot_tell
 #print axioms OH.Props.C07.C07_before_repair_fails
+#print axioms OH.Props.TablesC07.C07_frames
